@@ -137,6 +137,14 @@ pub trait JobT: Send + Sync {
     fn run(&self, seed: u64, tier_scale: f64) -> JobResult;
     /// re-execute a saved input; Ok(rendering) if it passes, Err(failure) otherwise
     fn replay(&self, input: &Value, strict: bool) -> Result<Value, JobFailure>;
+    /// decode fuzzer bytes into this job's input type (None: job has no byte decoder / bytes unusable)
+    fn decode_bytes(&self, _data: &[u8]) -> Option<Value> {
+        None
+    }
+    /// run one fuzzer input; None if the job cannot decode bytes
+    fn fuzz(&self, _data: &[u8]) -> Option<Result<(), Fail>> {
+        None
+    }
 }
 
 pub type CaseFn<T> = Arc<dyn Fn(&T, &mut Stats) -> Result<(), Fail> + Send + Sync>;
@@ -150,6 +158,8 @@ pub struct PJob<T> {
     pub f: CaseFn<T>,
     /// (class name, minimal fraction of cases)
     pub floors: Vec<(String, f64)>,
+    /// fuzzer bytes -> input (coverage-guided fuzzing drives the same case function)
+    pub decode: Option<Arc<dyn Fn(&[u8]) -> Option<T> + Send + Sync>>,
 }
 
 fn run_case<T>(f: &CaseFn<T>, t: &T, stats: &mut Stats) -> Result<(), Fail> {
@@ -285,6 +295,17 @@ impl<T: Clone + std::fmt::Debug + Hash + Serialize + DeserializeOwned + Send + S
         }
         JobResult { label: self.label.clone(), stats, failure, degenerate }
     }
+    fn decode_bytes(&self, data: &[u8]) -> Option<Value> {
+        let d = self.decode.as_ref()?;
+        let t = d(data)?;
+        serde_json::to_value(&t).ok()
+    }
+    fn fuzz(&self, data: &[u8]) -> Option<Result<(), Fail>> {
+        let d = self.decode.as_ref()?;
+        let t = d(data)?;
+        let mut st = Stats::default();
+        Some(run_case(&self.f, &t, &mut st))
+    }
     fn replay(&self, input: &Value, strict: bool) -> Result<Value, JobFailure> {
         let t: T = serde_json::from_value(input.clone()).map_err(|e| JobFailure {
             label: self.label.clone(),
@@ -377,10 +398,14 @@ pub fn job<T: Clone + std::fmt::Debug + Hash + Serialize + DeserializeOwned + Se
     strategy: impl Fn() -> BoxedStrategy<T> + Send + Sync + 'static,
     f: impl Fn(&T, &mut Stats) -> Result<(), Fail> + Send + Sync + 'static,
 ) -> PJob<T> {
-    PJob { label: label.into(), cases_quick: quick, cases_thorough: thorough, strategy: Arc::new(strategy), f: Arc::new(f), floors: Vec::new() }
+    PJob { label: label.into(), cases_quick: quick, cases_thorough: thorough, strategy: Arc::new(strategy), f: Arc::new(f), floors: Vec::new(), decode: None }
 }
 
 impl<T> PJob<T> {
+    pub fn decoder(mut self, d: impl Fn(&[u8]) -> Option<T> + Send + Sync + 'static) -> Self {
+        self.decode = Some(Arc::new(d));
+        self
+    }
     pub fn floor(mut self, class: &str, frac: f64) -> Self {
         self.floors.push((class.to_string(), frac));
         self
@@ -425,10 +450,14 @@ pub fn run_property(p: &Property, tier: &str, seed: u64, verif_dir: &str, only_j
     // 1. replay known findings of this property
     let kf_path = format!("{verif_dir}/known_findings.json");
     let mut known_lines = Vec::new();
+    let mut regressions: Vec<JobFailure> = Vec::new();
     if let Ok(text) = std::fs::read_to_string(&kf_path) {
         let list: Vec<KnownFinding> = serde_json::from_str(&text).expect("known_findings.json is malformed");
-        for k in list.iter().filter(|k| k.property == p.id && k.status != "fixed") {
+        for k in list.iter().filter(|k| k.property == p.id) {
             let path = format!("{verif_dir}/{}", k.replay);
+            if k.replay.is_empty() {
+                continue;
+            }
             let text = match std::fs::read_to_string(&path) {
                 Ok(t) => t,
                 Err(e) => {
@@ -439,9 +468,20 @@ pub fn run_property(p: &Property, tier: &str, seed: u64, verif_dir: &str, only_j
             let v: Value = serde_json::from_str(&text).expect("replay file malformed");
             let label = v["job"].as_str().unwrap_or("");
             if let Some(j) = p.jobs.iter().find(|j| j.label() == label) {
-                match j.replay(&v["input"], true) {
-                    Err(f) => known_lines.push(format!("KNOWN-FINDING: property={} class={} {} [{}]", p.id, k.class, k.what, first_line(&f.msg))),
-                    Ok(_) => { /* no longer violates: nothing printed, nothing suppressed */ }
+                // a "fixed" entry suppresses nothing: its replay is a plain regression input (repeated, because
+                // the original failure depended on hash iteration order) and a failure is reported as a violation
+                let rounds = if k.status == "fixed" { 24 } else { 1 };
+                for _ in 0..rounds {
+                    // open findings are replayed with every exemption off; fixed ones with the normal exemptions
+                    // (their history may also contain other, still open, classes)
+                    match j.replay(&v["input"], k.status != "fixed") {
+                        Err(f) if k.status == "fixed" => {
+                            regressions.push(f);
+                            break;
+                        }
+                        Err(f) => known_lines.push(format!("KNOWN-FINDING: property={} class={} {} [{}]", p.id, k.class, k.what, first_line(&f.msg))),
+                        Ok(_) => { /* no longer violates: nothing printed, nothing suppressed */ }
+                    }
                 }
             } else {
                 eprintln!("known finding {} refers to unknown job '{}'", k.class, label);
@@ -478,6 +518,7 @@ pub fn run_property(p: &Property, tier: &str, seed: u64, verif_dir: &str, only_j
     }
 
     // 3. report
+    violations.extend(regressions);
     for l in &known_lines {
         println!("{l}");
     }
@@ -523,6 +564,7 @@ pub fn run_property(p: &Property, tier: &str, seed: u64, verif_dir: &str, only_j
             "exhaustive_scopes": total.exhaustive_scopes,
             "jobs": per_job,
             "known_findings_reproduced": known_lines,
+            "fuzz": std::env::var("VCHECK_FUZZ_STATS").ok().and_then(|p| std::fs::read_to_string(p).ok()).and_then(|t| serde_json::from_str::<Value>(&t).ok()).unwrap_or(Value::Null),
         },
         "assumptions": p.assumptions,
         "wall_s": t0.elapsed().as_secs_f64(),
@@ -568,6 +610,62 @@ pub fn replay_file(p: &Property, path: &str) -> i32 {
             println!("VIOLATION property={} replay={}", p.id, path);
             println!("{}", f.msg);
             println!("{}", serde_json::to_string_pretty(&f.rendering).unwrap());
+            1
+        }
+    }
+}
+
+// ------------------------------------------------------------------------------------------------
+// coverage-guided fuzzing entry: byte 0 selects the job (among those with a byte decoder), the rest
+// is decoded into that job's input; the SAME case function (same oracle, same exemptions) decides.
+
+pub fn fuzz_jobs(p: &Property) -> Vec<&Box<dyn JobT>> {
+    p.jobs.iter().filter(|j| j.decode_bytes(&[0u8; 64]).is_some()).collect()
+}
+
+pub fn fuzz_one(p: &Property, data: &[u8]) -> Result<(), String> {
+    if data.len() < 4 {
+        return Ok(());
+    }
+    let js = fuzz_jobs(p);
+    if js.is_empty() {
+        return Ok(());
+    }
+    let j = js[data[0] as usize % js.len()];
+    match j.fuzz(&data[1..]) {
+        Some(Err(f)) => Err(format!("property {} job {}: {}", p.id, j.label(), f.msg)),
+        _ => Ok(()),
+    }
+}
+
+/// turn a libFuzzer artifact into a normal replay / VIOLATION report
+pub fn fuzz_artifact(p: &Property, path: &str, verif_dir: &str) -> i32 {
+    let data = std::fs::read(path).expect("read artifact");
+    if data.len() < 4 {
+        println!("artifact too short to decode");
+        return 0;
+    }
+    let js = fuzz_jobs(p);
+    if js.is_empty() {
+        return 0;
+    }
+    let j = js[data[0] as usize % js.len()];
+    let Some(input) = j.decode_bytes(&data[1..]) else { return 0 };
+    match j.replay(&input, false) {
+        Ok(_) => {
+            println!("fuzz artifact {path} does not reproduce on the stable build (job {})", j.label());
+            0
+        }
+        Err(f) => {
+            let body = json!({"property": p.id, "job": f.label, "strict": false, "input": f.input, "message": f.msg, "detail": f.detail, "history": f.rendering, "from_fuzz_artifact": path});
+            let h = hash_of(&body.to_string());
+            std::fs::create_dir_all(format!("{verif_dir}/replays")).ok();
+            let rp = format!("{verif_dir}/replays/{}-{:016x}.json", p.id, h);
+            std::fs::write(&rp, serde_json::to_string_pretty(&body).unwrap()).expect("write replay");
+            println!("VIOLATION property={} replay={}", p.id, rp);
+            for l in f.msg.lines().take(12) {
+                println!("  {l}");
+            }
             1
         }
     }
